@@ -326,7 +326,7 @@ def rule_forest_root(rep):
             node=f.node,
         )
         r.check(
-            re.search(r"self\.result = results\.pop\(\)\s+while results:\s+result = results\.pop\(\)\s+self\.result\.merge\(result\)", t) is not None,
+            re.search(r"self\.result = results\.pop\(\)\s+(while results:\s+result = results\.pop\(\)|for result in reversed\(results\):)\s+self\.result\.merge\(result\)", t) is not None,
             "all candidates are folded into the root",
             "Forest.__init__:fold",
             "Forest.__init__ no longer folds every candidate link into the root with merge() only "
